@@ -91,7 +91,10 @@ def residue(tracer, skip):
     return found_traces, found_frames
 
 
-def run_program(prog, scratch, k=0, sample_rate=None, rng_seed=None, accept=None, typer="k", keep_module=False, trace=True):
+def run_program(prog, scratch, k=0, sample_rate=None, rng_seed=None, accept=None, typer="k", keep_module=False, trace=True,
+                tracer_cm=None, blocks=1, on_module=None):
+    """tracer_cm: optional factory of the tracing context (e.g. lambda: monkeytype.trace(config)); blocks: the schedule is
+    split into that many consecutive tracing blocks, live generators are drained at the end of each."""
     """accept: optional predicate(function index or None, code) restricting the filter (C17)."""
     src = synth.render(prog)
     try:
@@ -109,6 +112,8 @@ def run_program(prog, scratch, k=0, sample_rate=None, rng_seed=None, accept=None
         scratch.drop(name, path)
         raise core.HarnessError(f"generated module does not import: {e!r}\n{src}")
     funcs = prog["funcs"]
+    if on_module:
+        on_module(path)
 
     def flt(code):
         if code.co_filename != path or code.co_name.startswith("_mtv_") or code.co_name == "<module>":
@@ -120,10 +125,16 @@ def run_program(prog, scratch, k=0, sample_rate=None, rng_seed=None, accept=None
     if rng_seed is not None:
         random.seed(rng_seed)
     res.driver_error = None
+    all_ops = prog["ops"] * prog.get("repeat", 1)
+    nblk = max(1, min(blocks, len(all_ops)))
+    chunks = [all_ops[i * len(all_ops) // nblk:(i + 1) * len(all_ops) // nblk] for i in range(nblk)]
+    tracer = None
     try:
-        with (trace_calls(lg, k, flt, sample_rate) if trace else contextlib.nullcontext()):
+      for bi, chunk in enumerate(chunks):
+        cm = tracer_cm() if tracer_cm else (trace_calls(lg, k, flt, sample_rate) if trace else contextlib.nullcontext())
+        with cm:
             tracer = sys.getprofile()
-            for op in prog["ops"] * prog.get("repeat", 1):
+            for op in chunk:
                 if op[0] == "call":
                     f = funcs[op[1] % len(funcs)]
                     values = [vals.build(s) for s in op[2]]
@@ -159,7 +170,7 @@ def run_program(prog, scratch, k=0, sample_rate=None, rng_seed=None, accept=None
                     status, _ = R.step(cid, g, op[0])
                     if status != "suspended":
                         live.remove((cid, g))
-            if prog.get("drain", True):
+            if prog.get("drain", True) or bi < nblk - 1:
                 for cid, g in live:
                     for _ in range(12):
                         status, _ = R.step(cid, g, "next")
@@ -167,6 +178,7 @@ def run_program(prog, scratch, k=0, sample_rate=None, rng_seed=None, accept=None
                             break
                     else:
                         left.append((cid, g))
+                live = []
             else:
                 left += live
     except BaseException as e:
